@@ -26,6 +26,8 @@ PROP = "C20"
 # command -> (seqargs value, {option: value})       arguments in their valid ranges
 CASES = {
     "poly2angles": [(None, {"--poly": [0.0, 0.5]}), (None, {"--poly": [-0.3, 0.0, 0.6]}), (None, {"--poly": [0.0, 0.2, 0.0, -0.5]})],
+    "poly2angles  ": [(None, {"--poly": [0.0, 0.6, 0.0, -0.3, 0.0, 0.0]}), (None, {"--poly": [0.0, 0.0, 0.5, 0.0, 0.0]}), (None, {"--poly": [0.0, 0.4, 0.0]}),
+                      (None, {"--poly": [0.3, 0.0, 0.4, 0.0, 0.0]}), (None, {"--poly": [0.0, 0.0, 0.0, 0.5]})],      # zeros at either end are part of the list
     "hamsim": [([3.0, 0.1], {}), ([5.5, 0.05], {})],
     "fpsearch": [([4, 0.5], {}), ([7, 0.1], {})],
     "invert": [([3, 0.3], {}), ([2.5, 0.2], {})],
